@@ -2,6 +2,8 @@ package ref
 
 import (
 	"fmt"
+	"math"
+	"math/big"
 	"sort"
 )
 
@@ -348,5 +350,66 @@ func GSelfTest() error {
 			return fmt.Errorf("Kosaraju vs mutual reachability differ on %v: %v %v", a, k1, k2)
 		}
 	}
+	// exact summation: 1e50 + 0.1 - 1e50 + 0.2 is 0.1+0.2 exactly
+	ex, spread := GExactSum([]float64{1e50, 0.1, -1e50, 0.2})
+	want := new(big.Float).SetPrec(gSumPrec).SetFloat64(0.1)
+	want.Add(want, new(big.Float).SetPrec(gSumPrec).SetFloat64(0.2))
+	if ex.Cmp(want) != 0 || spread < 160 || spread > 175 || GAbsDiffExact(0.1+0.2, ex) > 1e-16 ||
+		GAbsDiffExact(0.3, ex) == 0 || !math.IsInf(GAbsDiffExact(math.Inf(1), ex), 1) || !math.IsNaN(GAbsDiffExact(math.NaN(), ex)) {
+		return fmt.Errorf("GExactSum constants: %v spread %d", ex, spread)
+	}
+	if ex, _ := GExactSum([]float64{5e-324, math.MaxFloat64, -math.MaxFloat64}); GFloat(ex) != 5e-324 {
+		return fmt.Errorf("GExactSum range: %v", ex)
+	}
 	return dotSelfTest()
+}
+
+// gSumPrec holds any sum of finite float64 values exactly (2^-1074..2^1024
+// plus carries).
+const gSumPrec = 2300
+
+// GExactSum returns the exact sum of finite float64 values and the spread of
+// their magnitudes: the difference between the largest and the smallest
+// binary exponent among the non-zero values.
+func GExactSum(xs []float64) (sum *big.Float, spread int) {
+	sum = new(big.Float).SetPrec(gSumPrec)
+	t := new(big.Float).SetPrec(gSumPrec)
+	lo, hi := math.MaxInt32, math.MinInt32
+	for _, x := range xs {
+		sum.Add(sum, t.SetFloat64(x))
+		if x != 0 {
+			_, e := math.Frexp(x)
+			if e < lo {
+				lo = e
+			}
+			if e > hi {
+				hi = e
+			}
+		}
+	}
+	if hi >= lo {
+		spread = hi - lo
+	}
+	return sum, spread
+}
+
+// GAbsDiffExact is |got - exact| rounded to float64 (+Inf / NaN for a got
+// that is infinite / NaN).
+func GAbsDiffExact(got float64, exact *big.Float) float64 {
+	if math.IsNaN(got) {
+		return math.NaN()
+	}
+	if math.IsInf(got, 0) {
+		return math.Inf(1)
+	}
+	d := new(big.Float).SetPrec(gSumPrec).SetFloat64(got)
+	d.Sub(d, exact)
+	f, _ := d.Abs(d).Float64()
+	return f
+}
+
+// GFloat rounds an exact value to the nearest float64.
+func GFloat(x *big.Float) float64 {
+	f, _ := x.Float64()
+	return f
 }
